@@ -107,6 +107,9 @@ func c11Hang(d *vCtx) error {
 		}
 		var details []map[string]any
 		for ji := si; ji < len(jobs); ji += n {
+			if ji <= vResumeAfter() {
+				continue
+			}
 			j := jobs[ji]
 			cc := *j.c
 			cc.ID = ji
@@ -120,6 +123,10 @@ func c11Hang(d *vCtx) error {
 			os.RemoveAll(e2eWorkDir(base, cc.ID))
 			d.add("runs", 1)
 			d.add("kind_"+e2ePlanKind(&cc.Plan), 1)
+			if e2eTainted {
+				vRequestRestart(d, ji)
+				break
+			}
 		}
 		d.set("jobs_total", len(jobs))
 		if err := tr.Close(); err != nil {
